@@ -29,49 +29,50 @@ type Violation struct {
 
 // Result is what one run reports to vcheck.
 type Result struct {
-	Prop      string         `json:"prop"`
-	Index     int            `json:"index"`
-	Seed      uint64         `json:"seed"`
-	Hash      string         `json:"hash"`
-	Steps     int            `json:"steps"`
-	Picks     int            `json:"picks"`
-	NonDflt   int            `json:"nondflt"`
-	MaxCands  int            `json:"maxcands"`
-	Adopted   int            `json:"adopted"`
-	SimMs     int64          `json:"sim_ms"`
-	Ops       int            `json:"ops"`
-	OpKinds   string         `json:"opkinds"`
-	Faults    map[string]int `json:"faults,omitempty"`
-	Probes    map[string]int `json:"probes,omitempty"`
-	Variant   string         `json:"variant,omitempty"`
-	Viol      *Violation     `json:"viol,omitempty"`
-	Harness   string         `json:"harness_error,omitempty"`
-	Leaked    int            `json:"leaked,omitempty"`
-	Tapes     *Tapes         `json:"tapes,omitempty"`
-	Trace     []string       `json:"trace,omitempty"`
-	Sample    any            `json:"sample,omitempty"`
-	Strategy  int            `json:"strategy"`
-	States    []string       `json:"states,omitempty"`
-	NonTrivial bool          `json:"nontrivial"`
-	Used      []int          `json:"used,omitempty"`
-	Inconcl   string         `json:"inconclusive,omitempty"`
+	Prop       string         `json:"prop"`
+	Index      int            `json:"index"`
+	Seed       uint64         `json:"seed"`
+	Hash       string         `json:"hash"`
+	Steps      int            `json:"steps"`
+	Picks      int            `json:"picks"`
+	NonDflt    int            `json:"nondflt"`
+	MaxCands   int            `json:"maxcands"`
+	Adopted    int            `json:"adopted"`
+	SimMs      int64          `json:"sim_ms"`
+	Ops        int            `json:"ops"`
+	OpKinds    string         `json:"opkinds"`
+	Faults     map[string]int `json:"faults,omitempty"`
+	Probes     map[string]int `json:"probes,omitempty"`
+	Variant    string         `json:"variant,omitempty"`
+	Viol       *Violation     `json:"viol,omitempty"`
+	Harness    string         `json:"harness_error,omitempty"`
+	Leaked     int            `json:"leaked,omitempty"`
+	Tapes      *Tapes         `json:"tapes,omitempty"`
+	Trace      []string       `json:"trace,omitempty"`
+	Sample     any            `json:"sample,omitempty"`
+	Strategy   int            `json:"strategy"`
+	States     []string       `json:"states,omitempty"`
+	NonTrivial bool           `json:"nontrivial"`
+	Used       []int          `json:"used,omitempty"`
+	Inconcl    string         `json:"inconclusive,omitempty"`
+	Race       string         `json:"race_report,omitempty"` // race-detector output produced during this run (race builds)
 }
 
 // Run is the context handed to a scenario.
 type Run struct {
-	Prop  string
-	Seed  uint64
-	Tier  string
-	W, F  *simrt.Tape
-	S, A  *simrt.Tape
-	Sim   *simrt.Sim
-	Net   simnet.Stats
-	Res   *Result
-	ops   []string
-	start time.Time
+	Prop   string
+	Seed   uint64
+	Tier   string
+	W, F   *simrt.Tape
+	S, A   *simrt.Tape
+	Sim    *simrt.Sim
+	Net    simnet.Stats
+	Res    *Result
+	ops    []string
+	start  time.Time
 	Replay bool
-	log   []string
-	conns []*simnet.Conn
+	log    []string
+	conns  []*simnet.Conn
 	states map[string]struct{}
 }
 
@@ -236,16 +237,16 @@ func (r *Run) Finish() {
 
 // Scenario is one property's simulated check.
 type Scenario struct {
-	Prop     string   `json:"prop"`
-	Desc     string   `json:"desc"`
-	Quick    int      `json:"quick"`    // runs in the quick tier
-	Thorough int      `json:"thorough"` // runs in the thorough tier
-	Race     bool     `json:"race"`     // needs the -race build
-	Crash    bool     `json:"crash_is_violation"`
-	Real     string   `json:"real"`  // components running real code
-	Model    string   `json:"model"` // components that are models / stubs
-	Rule     string   `json:"rule"`
-	Assume   []string `json:"assume"`
+	Prop     string       `json:"prop"`
+	Desc     string       `json:"desc"`
+	Quick    int          `json:"quick"`    // runs in the quick tier
+	Thorough int          `json:"thorough"` // runs in the thorough tier
+	Race     bool         `json:"race"`     // needs the -race build
+	Crash    bool         `json:"crash_is_violation"`
+	Real     string       `json:"real"`  // components running real code
+	Model    string       `json:"model"` // components that are models / stubs
+	Rule     string       `json:"rule"`
+	Assume   []string     `json:"assume"`
 	Run      func(r *Run) `json:"-"`
 }
 
